@@ -85,70 +85,88 @@ Qed.
 (* a task with at least two declared outputs *)
 Definition multi (t : task) : Prop := 2 <= List.length (t_oschema t).
 
-Lemma run_task_multi : forall tid (t : task) src publish m args kwargs,
-  multi t -> bound_args t src m = Ok (args, kwargs) ->
+(* the results are unpacked: at least two declared outputs, or at least one and the callable
+   returned a generator *)
+Definition unpacked (t : task) (it : iterab D) : Prop :=
+  multi t \/ (t_oschema t <> [] /\ exists ys fin, it = Iter true ys fin).
+
+Lemma run_task_unpacked : forall tid (t : task) src publish m args kwargs v it,
+  bound_args t src m = Ok (args, kwargs) ->
+  call (t_func t) args kwargs = CRet v it -> unpacked t it ->
   run_task call tid t src publish m =
-    match call (t_func t) args kwargs with
-    | CRaise e => ([], Err e)
-    | CRet _ NotIter => ([], Err "TypeError")
-    | CRet _ (Iter ys fin) => store_loop tid publish (sort_by_key (t_oschema t)) ys fin []
+    match it with
+    | NotIter => ([], Err "TypeError")
+    | Iter _ ys fin => store_loop tid publish (sort_by_key (t_oschema t)) ys fin []
     end.
 Proof.
-  intros tid t src publish m args kwargs Hm Hb. unfold run_task. rewrite Hb.
-  unfold multi in Hm. rewrite <- (sort_length (t_oschema t)) in Hm.
-  destruct (sort_by_key (t_oschema t)) as [|[k1 s1] [|[k2 s2] r]]; cbn in Hm; try lia.
-  reflexivity.
+  intros tid t src publish m args kwargs v it Hb Hc Hu. unfold run_task. rewrite Hb.
+  pose proof (sort_length (t_oschema t)) as Hlen.
+  destruct (sort_by_key (t_oschema t)) as [|[k1 s1] r] eqn:Hs.
+  - exfalso. destruct Hu as [Hm|[Hne _]]; [unfold multi in Hm; cbn in Hlen; lia|].
+    destruct (t_oschema t); [contradiction|discriminate].
+  - rewrite Hc.
+    assert (Hun : unpacks (List.length ((k1, s1) :: r)) it = true).
+    { destruct Hu as [Hm|[_ (ys & fin & ->)]]; [|reflexivity].
+      unfold multi in Hm. rewrite <- Hlen in Hm. unfold unpacks.
+      destruct it as [|[|] ys fin]; try reflexivity; apply Nat.ltb_lt; exact Hm. }
+    rewrite Hun. reflexivity.
 Qed.
 
 (* yield i is bound to the i-th output in key-sorted order -- for any number of outputs *)
-Lemma run_task_binds_yields : forall tid (t : task) src publish m args kwargs v ys,
-  multi t -> bound_args t src m = Ok (args, kwargs) ->
-  call (t_func t) args kwargs = CRet v (Iter ys None) ->
+Lemma run_task_binds_yields : forall tid (t : task) src publish m args kwargs v gn ys,
+  bound_args t src m = Ok (args, kwargs) ->
+  call (t_func t) args kwargs = CRet v (Iter gn ys None) -> unpacked t (Iter gn ys None) ->
   List.length ys = List.length (t_oschema t) ->
   run_task call tid t src publish m = (stores tid publish (sort_by_key (t_oschema t)) ys, Ok tt).
 Proof.
-  intros tid t src publish m args kwargs v ys Hm Hb Hc Hl.
-  rewrite (run_task_multi _ _ _ _ _ _ _ Hm Hb), Hc.
+  intros tid t src publish m args kwargs v gn ys Hb Hc Hu Hl.
+  rewrite (run_task_unpacked _ _ _ _ _ _ _ _ _ Hb Hc Hu).
   apply store_loop_exact. rewrite sort_length. exact Hl.
 Qed.
 
 (* a count mismatch (or an iterator that raises) is a task failure *)
-Lemma run_task_count_mismatch_fails : forall tid (t : task) src publish m args kwargs v ys fin,
-  multi t -> bound_args t src m = Ok (args, kwargs) ->
-  call (t_func t) args kwargs = CRet v (Iter ys fin) ->
+Lemma run_task_count_mismatch_fails : forall tid (t : task) src publish m args kwargs v gn ys fin,
+  bound_args t src m = Ok (args, kwargs) ->
+  call (t_func t) args kwargs = CRet v (Iter gn ys fin) -> unpacked t (Iter gn ys fin) ->
   List.length ys <> List.length (t_oschema t) \/ fin <> None ->
   exists e, snd (run_task call tid t src publish m) = Err e.
 Proof.
-  intros tid t src publish m args kwargs v ys fin Hm Hb Hc Hl.
-  rewrite (run_task_multi _ _ _ _ _ _ _ Hm Hb), Hc.
+  intros tid t src publish m args kwargs v gn ys fin Hb Hc Hu Hl.
+  rewrite (run_task_unpacked _ _ _ _ _ _ _ _ _ Hb Hc Hu).
   apply store_loop_mismatch. rewrite sort_length. exact Hl.
 Qed.
 
-(* run returns normally exactly when the counts agree *)
+(* with at least two outputs, run returns normally exactly when the counts agree *)
 Lemma run_task_multi_ok_iff : forall tid (t : task) src publish m args kwargs,
   multi t -> bound_args t src m = Ok (args, kwargs) ->
   (snd (run_task call tid t src publish m) = Ok tt <->
-   exists v ys, call (t_func t) args kwargs = CRet v (Iter ys None) /\
-                List.length ys = List.length (t_oschema t)).
+   exists v gn ys, call (t_func t) args kwargs = CRet v (Iter gn ys None) /\
+                   List.length ys = List.length (t_oschema t)).
 Proof.
   intros tid t src publish m args kwargs Hm Hb.
-  rewrite (run_task_multi _ _ _ _ _ _ _ Hm Hb).
-  destruct (call (t_func t) args kwargs) as [e|v [|ys fin]]; cbn [snd].
-  - split; [discriminate|intros (v & ys & H & _); discriminate].
-  - split; [discriminate|intros (v' & ys & H & _); discriminate].
-  - rewrite store_loop_ok_iff, sort_length. split.
-    + intros [Hl ->]. exists v, ys. split; [reflexivity|exact Hl].
-    + intros (v' & ys' & H & Hl). injection H as _ <- <-. split; [exact Hl|reflexivity].
+  destruct (call (t_func t) args kwargs) as [e|v it] eqn:Hc.
+  - unfold run_task. rewrite Hb.
+    destruct (sort_by_key (t_oschema t)) as [|[k s] r]; rewrite ?Hc; cbn [snd];
+      (split; [discriminate|intros (v & gn & ys & H & _); discriminate]).
+  - rewrite (run_task_unpacked _ _ _ _ _ _ _ _ _ Hb Hc (or_introl Hm)).
+    destruct it as [|gn ys fin]; cbn [snd].
+    + split; [discriminate|intros (v' & gn & ys & H & _); discriminate].
+    + rewrite store_loop_ok_iff, sort_length. split.
+      * intros [Hl ->]. exists v, gn, ys. split; [reflexivity|exact Hl].
+      * intros (v' & gn' & ys' & H & Hl). injection H as _ _ <- <-. split; [exact Hl|reflexivity].
 Qed.
 
-(* a single declared output: the returned object itself is stored, iterable or not *)
+(* a single declared output and anything but a generator: the returned object itself is
+   stored, iterable or not *)
 Lemma run_task_single : forall tid (t : task) src publish m args kwargs k s v it,
   t_oschema t = [(k, s)] -> bound_args t src m = Ok (args, kwargs) ->
   call (t_func t) args kwargs = CRet v it ->
+  (forall ys fin, it <> Iter true ys fin) ->
   run_task call tid t src publish m = ([((tid, k), v, in_publish (tid, k) publish)], Ok tt).
 Proof.
-  intros tid t src publish m args kwargs k s v it Ho Hb Hc.
-  unfold run_task. rewrite Hb, Ho. cbn. rewrite Hc. reflexivity.
+  intros tid t src publish m args kwargs k s v it Ho Hb Hc Hng.
+  unfold run_task. rewrite Hb, Ho. cbn [sort_by_key fold_right insert_by_key]. rewrite Hc.
+  destruct it as [|[|] ys fin]; try reflexivity. exfalso. eapply Hng. reflexivity.
 Qed.
 
 (* ------------------------------------------------------------------ the value stored under an output *)
@@ -208,13 +226,16 @@ Proof.
   destruct (bound_args t src m) as [[args kwargs]|e] eqn:Hb; [|discriminate].
   destruct (sort_by_key (t_oschema t)) as [|[k1 s1] r] eqn:Hs; [discriminate|].
   assert (Hkeys : exists ys, List.length ys = List.length ((k1, s1) :: r) /\ hs = stores tid publish ((k1, s1) :: r) ys).
-  { destruct r as [|[k2 s2] r'].
-    - destruct (call (t_func t) args kwargs) as [e|v it]; [discriminate|].
-      injection Hrun as <-. exists [v]. split; reflexivity.
-    - destruct (call (t_func t) args kwargs) as [e|v [|ys fin]]; try discriminate.
-      pose proof (store_loop_ok_iff tid publish ((k1, s1) :: (k2, s2) :: r') ys fin) as Hiff.
+  { destruct (call (t_func t) args kwargs) as [e|v it]; [discriminate|].
+    destruct (unpacks (List.length ((k1, s1) :: r)) it) eqn:Hun.
+    - destruct it as [|gn ys fin]; [discriminate|].
+      pose proof (store_loop_ok_iff tid publish ((k1, s1) :: r) ys fin) as Hiff.
       rewrite Hrun in Hiff. cbn [snd] in Hiff. destruct Hiff as [Hiff _]. destruct (Hiff eq_refl) as [Hl ->].
-      rewrite store_loop_exact in Hrun by exact Hl. injection Hrun as <-. exists ys. split; [exact Hl|reflexivity]. }
+      rewrite store_loop_exact in Hrun by exact Hl. injection Hrun as <-. exists ys. split; [exact Hl|reflexivity].
+    - assert (Hr : r = []).
+      { destruct r as [|x r']; [reflexivity|]. exfalso. unfold unpacks in Hun. cbn [List.length] in Hun.
+        destruct it as [|[|] ys fin]; discriminate. }
+      subst r. injection Hrun as <-. exists [v]. split; reflexivity. }
   destruct Hkeys as (ys & Hl & ->).
   set (outs := (k1, s1) :: r) in *.
   assert (Hne : map fst outs <> []) by (unfold outs; cbn; discriminate).
